@@ -81,3 +81,83 @@ func joinOperands(p *core.Program, f *core.Func, e ast.Expr) []operand {
 	}
 	return out
 }
+
+// memberCall recognises `elem ∈ set` tests: slices.Contains(set, elem) or a
+// program function that is a membership loop over its first parameter
+// (`for _, m := range set { if m == elem { return true } }; return false`).
+func memberCall(p *core.Program, f *core.Func, c *ast.CallExpr) (set, elem ast.Expr, ok bool) {
+	info := f.Info()
+	if len(c.Args) != 2 {
+		return nil, nil, false
+	}
+	if core.CalleeName(info, c) == "slices.Contains" {
+		return c.Args[0], c.Args[1], true
+	}
+	callee := p.FuncOfObj(core.CalleeFunc(info, c))
+	if callee == nil || callee.Decl == nil || callee.Decl.Recv != nil {
+		return nil, nil, false
+	}
+	cinfo := callee.Info()
+	var ps []*types.Var
+	for _, fld := range callee.Decl.Type.Params.List {
+		for _, n := range fld.Names {
+			if v, ok := cinfo.ObjectOf(n).(*types.Var); ok {
+				ps = append(ps, v)
+			}
+		}
+	}
+	if len(ps) != 2 {
+		return nil, nil, false
+	}
+	var loop *ast.RangeStmt
+	nloops := 0
+	for _, s := range callee.Body.List {
+		if rs, ok := s.(*ast.RangeStmt); ok {
+			loop = rs
+			nloops++
+		}
+	}
+	if nloops != 1 || core.VarOf(cinfo, loop.X) != ps[0] || loop.Value == nil {
+		return nil, nil, false
+	}
+	m := core.VarOf(cinfo, loop.Value)
+	g := graph(callee)
+	nTrue, nFalse, bad := 0, 0, false
+	ast.Inspect(callee.Body, func(n ast.Node) bool {
+		switch x := n.(type) {
+		case *ast.BranchStmt:
+			bad = true
+		case *ast.FuncLit:
+			bad = true
+		case *ast.ReturnStmt:
+			if len(x.Results) != 1 {
+				bad = true
+				return true
+			}
+			tv := cinfo.Types[x.Results[0]]
+			inLoop := loop.Body.Pos() <= x.Pos() && x.Pos() < loop.Body.End()
+			switch {
+			case tv.Value != nil && tv.Value.String() == "true" && inLoop:
+				eq := false
+				for _, fct := range g.FactsAt(g.PointOf(x)) {
+					if v, ok := eqFact(fct, func(e ast.Expr) bool { return core.VarOf(cinfo, e) == m }, func(e ast.Expr) bool { return core.VarOf(cinfo, e) == ps[1] }); ok && v {
+						eq = true
+					}
+				}
+				if !eq {
+					bad = true
+				}
+				nTrue++
+			case tv.Value != nil && tv.Value.String() == "false" && !inLoop:
+				nFalse++
+			default:
+				bad = true
+			}
+		}
+		return true
+	})
+	if bad || nTrue == 0 || nFalse == 0 {
+		return nil, nil, false
+	}
+	return c.Args[0], c.Args[1], true
+}
